@@ -65,7 +65,7 @@ def _mc(ctx, name, workers, **kw):
 def muc_design_runs(ctx, specs, devs):
     """run the exhaustive design checks `specs` (name -> cfg parameters) and the deviation runs
     side by side (TLC start-up dominates the small ones); returns (runs, caught)"""
-    nw = max(2, verif.NCPU // max(1, min(3, len(specs))))
+    nw = max(2, verif.NCPU // 2)
 
     def dev_run(d):
         alpha, inv = MUC_DEVS[d]
@@ -641,6 +641,12 @@ def rc_scenarios(tier):
         allseq += nxt
         seqs = nxt
     scen += [{"mode": "seq", "steps": st(*s)} for s in allseq if any(x.startswith("call") for x in s)]
+    # the handler's configuration: the same protocol-level scripts (one step shorter, and also those
+    # without any call: receipts nobody waits for, repeated) against the default &receipts.Handler{}
+    # without the optional Unhandled callback - what a stray receipt leaves behind (a lock, a table
+    # entry) shows at the next receipt / the next send
+    scen += [{"mode": "seq", "nounh": True, "steps": st(*s)} for s in allseq if len(s) < maxlen and any(x.startswith("peer") for x in s)]
+    scen += [{"mode": "explore", "nounh": True, "steps": x} for x in ex[:4]]
     return scen
 
 
@@ -722,6 +728,25 @@ def rc_selftest(ctx, trace):
     if h:
         m.insert(h[0], {"ev": "unhandled", "id": m[h[0]]["id"]})
         muts.append(("receipt both delivered and reported unhandled", m))
+    # the handler configuration without an Unhandled callback: a trace with two receipts nobody waits for
+    def stray2(tr):
+        return (tr[0].get("unh") is False and sum(1 for e in tr if e.get("ev") == "handled" and e.get("id") == "zz") >= 2
+                and not any(e.get("ev") in ("panic", "stuck") for e in tr))
+    nb = [t for t, tr in trs.items() if stray2(tr)]
+    if not nb:
+        raise verif.Undecided("receipts binding self-test: no trace of the default handler with two stray receipts")
+    nbase = [{k: v for k, v in e.items() if k != "_line"} for e in trs[nb[0]]]
+    h = [k for k, e in enumerate(nbase) if e.get("ev") == "handled"]
+    m = [dict(e) for e in nbase]
+    del m[h[1]]
+    muts.append(("default handler: the second stray receipt is never finished (serve loop wedged)", m))
+    m = [dict(e) for e in nbase]
+    m.insert(h[0], {"ev": "unhandled", "id": "zz"})
+    muts.append(("default handler: a callback that does not exist is reported", m))
+    m = [dict(e) for e in nbase]
+    m[0]["unh"] = True
+    muts.append(("handler with the callback drops a stray receipt silently", m))
+    muts.append(("unchanged (default handler)", [dict(e) for e in nbase]))
     p = ctx.path("rc-selftest.ndjson")
     line = 0
     with open(p, "w") as f:
@@ -732,8 +757,9 @@ def rc_selftest(ctx, trace):
                 f.write(json.dumps(e) + "\n")
             line += len(mm)
     rej, _ = tlc_validate(ctx, "TrReceipts", RC_TR, p, name="TrReceipts_selftest")
-    if 1 in rej:
+    if 1 in rej or len(muts) + 1 in rej:
         raise verif.Undecided("receipts binding self-test: unchanged trace rejected")
+    muts = muts[:-1]
     missed = [muts[k - 2][0] for k in range(2, 2 + len(muts)) if k not in rej]
     if missed:
         raise verif.Undecided("receipts binding self-test: corrupted traces ACCEPTED: %s" % missed)
